@@ -521,11 +521,32 @@ func c18Chars(c *Ctx) {
 			} else {
 				return
 			}
+			// only comparisons of an input line matter: the raw element of the split source, or its trimmed form
+			trimmed := false
+			if call, ok := other.(*ssa.Call); ok && strings.HasPrefix(callName(call), "strings.Trim") {
+				trimmed = true
+			} else {
+				raw := false
+				if u, ok := other.(*ssa.UnOp); ok {
+					if ia, ok := u.X.(*ssa.IndexAddr); ok {
+						base := ia.X
+						for i := 0; i < 4; i++ {
+							if sl, ok := base.(*ssa.Slice); ok {
+								base = sl.X
+								continue
+							}
+							break
+						}
+						if call, ok := base.(*ssa.Call); ok && strings.HasPrefix(callName(call), "strings.Split") {
+							raw = true
+						}
+					}
+				}
+				if !raw {
+					return
+				}
+			}
 			n++
-			trimmed := derivesFrom(other, func(v ssa.Value) bool {
-				call, ok := v.(*ssa.Call)
-				return ok && strings.HasPrefix(callName(call), "strings.Trim")
-			})
 			c.ob("C18-R5", fnKey(cs)+"#blank-line-decided-on-trimmed-text-"+itoa(n), bo.Pos(), trimmed, "a line is compared with the empty string before being trimmed: a line of spaces or tabs is not counted as blank but is written out empty, so the blank-line rules (no leading blank, at most one in a row) are applied by the second run of the formatter and fmt(fmt(x)) != fmt(x)")
 		})
 	}
